@@ -16,7 +16,7 @@ TITLE = "Concurrent simulations do not interfere; served snapshots are consisten
 LEVEL = "exploration"
 VARIANT = "sched"
 BUDGET = {"quick": 40, "thorough": 900}
-RUN_CAP_S = 30.0
+RUN_CAP_S = 20.0
 RULE = ("one run = one seeded schedule. Part A: K in 2..4 worker programs (load image, steps, integrate, copy, save+reload, archive append+reload, diff, "
         "synchronize, create/free) of different integrator families as threads under the baton scheduler; Part B: integrate() with the real web server thread and "
         "1..6 seeded client requests (/simulation, pause+resume) whose arrival is uniform over the tick horizon or biased into LAST_STEP / after-loop / inside "
@@ -60,6 +60,9 @@ def generate(rng, tier, index):
     cfg["dt"] = abs(cfg["dt"])
     cfg.pop("units", None)
     cfg.pop("exit_max_distance", None)
+    cfg.pop("force", None)
+    if integ == "ias15":
+        cfg["opts"] = {k: v for k, v in cfg["opts"].items() if k == "ri_ias15.adaptive_mode" and v in (1, 2)}     # tiny tolerances can stall the (serverless) reference run
     d = rng.derive("drv")
     nsteps = d.randint(3, 40)
     exact = d.choice([0, 1, 1])
@@ -197,13 +200,18 @@ def execute(case, ctx):
         ref = simgen.build(rebound, rb, cfg)
         rb.hb_reset()
         rb.hb_attach(ref)
-        SL.begin(sc["seed"], SL.POL_NONE)
+        SL.begin(sc["seed"], SL.POL_NONE, tick_cap=2**62)      # the serverless reference run is not under test: no tick cap to speak of
         try:
             ref.integrate(tmax, exact_finish_time=exact)
         finally:
             H = SL.stats()["ticks"]
             SL.end()
         bounds = rb.hb_take()
+    if H > 4 * 10**6:
+        # too long for a scheduled run within the per-run budget (adaptive integrator with a tiny tolerance): not explored
+        return dict(viols=viols, sig=None, probes={"reference_too_long_skipped": 1}, sim={"ticks": H, "switches": 0, "simulated_us": H})
+    with rb.quiet():
+        pass
     Tref = rb.T(ref)
     bset = set((b["steps_done"], rb.dbits(b["t"])) for b in bounds)
     ctx.op(2)
